@@ -168,6 +168,15 @@ func vFact(key, val string)             { vFacts = append(vFacts, key+"="+val) }
 func vConcrete(x uint64, max uint64) uint64 { return x }
 func vIsSym() bool                      { return false }
 func vDebug(tag string, x interface{})  {}
+func vSameValue(a, b interface{}) bool {
+	panic("VERIF-NO-NATIVE: structural comparison")
+}
+func vProtoFaultSites(msg interface{}) int {
+	panic("VERIF-NO-NATIVE: proto fault injection")
+}
+func vProtoFault(msg interface{}, site int) string {
+	panic("VERIF-NO-NATIVE: proto fault injection")
+}
 func vUF(name string, outLen int, in ...[]byte) []byte {
 	panic("VERIF-NO-NATIVE: uninterpreted function " + name)
 }
